@@ -153,6 +153,24 @@ type H014 struct {
 	E  int32     `parquet:"e"`
 }
 
+// a map whose VALUES carry the optional tag on a non-pointer Go type (parquet-value:",optional"):
+// the zero value is the null of the entry, any other value is present. C03 only.
+type H015 struct {
+	ID int64            `parquet:"id"`
+	M  map[string]int32 `parquet:"m" parquet-value:",optional"`
+}
+
+// MapValueOptCatalog: map types with optional non-pointer values (C03 only; not in MapCatalog).
+var MapValueOptCatalog []*Entry
+
+func init() {
+	if e := entryOf[H015]("H015"); e != nil {
+		e.HasMap = true
+		e.Shape = "optional-nonpointer-map-value"
+		MapValueOptCatalog = append(MapValueOptCatalog, e)
+	}
+}
+
 // shapes SchemaOf accepts that no documented tag describes: a pointer to a pointer, a slice of
 // pointers without the list tag. What the ingestion paths do with them is recorded as an
 // observation (they are not "Go struct types expressible with the documented tags").
